@@ -579,6 +579,29 @@ def extreme_unit_scenarios(rng, count, kind="sup", nq=2, nu=0):
     return out
 
 
+def bootstrap_scenarios(rng, count, kind="sup", nq=3):
+    """Index arrays drawn with replacement (a bootstrap sample): the same data row appears at several training positions. Each
+    position is a sample of its own - copies are at distance 0 from each other, in feature mode and through a pre-computed matrix."""
+    out = []
+    for i in range(count):
+        scn = random_float_scenario(rng, kind=kind, metric=("euclidean", "manhattan", "squared_euclidean", "log_squared_euclidean")[i % 4], n=rng.randrange(5, 12),
+                                    nu=(2 if kind == "semi" else 0), nq=nq, mode=("pre" if i % 2 else "metric"), classes=rng.choice([2, 3]), copies=False)
+        n = len(scn["I_train"])
+        rows = sorted(set(scn["I_train"]))
+        lab_of = {r_: y_ for r_, y_ in zip(scn["I_train"], scn["Y"])}
+        while True:
+            pick = [rng.choice(rows) for _ in range(n)]
+            if len({lab_of[r_] for r_ in pick}) >= 2 and len(set(pick)) < n:
+                break
+        scn["I_train"] = pick
+        scn["Y"] = relabel([lab_of[r_] for r_ in pick])
+        scn["pass_I"] = True
+        if not materialise_pre(scn):
+            continue
+        out.append(scn)
+    return out
+
+
 def reload_scenarios(rng, count, kind="sup", resub=False):
     """The fitted model goes through save -> load into a freshly constructed object built with ANOTHER metric before it predicts
     (history forced to 'reload'): many queries on overlapping classes, non-default metrics on several scales."""
